@@ -59,6 +59,12 @@ impl Monitor for Mon {
             self.expect_devstatus = None;
             self.class_a_req_pending = false;
         }
+        if aborted_before_tx(w, rec) {
+            // the uplink that would have carried the answers never reached the radio: no expectation on the next one
+            self.expect_devstatus = None;
+            self.class_a_req_pending = false;
+            stats.bump("probe.uplink-aborted-before-tx");
+        }
         let reacts = reactions(w, rec);
         let dels: Vec<crate::world::Delivered> = w.env.borrow().delivered[rec.del_lo..rec.del_hi].to_vec();
         let fe = w.env.borrow().cfg.frontend;
